@@ -119,8 +119,8 @@ def tied_peaks_stream(ctx):
     from astrodendro import Dendrogram
     rng = ctx.rng('c14-tied-peaks')
     for it in range(700 if ctx.quick else 7000):
-        shape = rng.choice([(3, 3), (3, 4), (4, 4), (3, 5), (2, 6), (1, 12)])
-        top = rng.choice([3, 4, 6])
+        shape = rng.choice([(3, 3), (3, 4), (4, 4), (3, 5), (2, 6), (1, 12), (5, 5), (5, 5), (5, 6)])
+        top = rng.choice([3, 4, 6]) if shape[0] < 5 else 6
         vals = [rng.randint(1, top) for _ in range(shape[0] * shape[1])]
         arr = np.array(vals, dtype=float).reshape(shape)
         if rng.random() < 0.5:
@@ -138,6 +138,16 @@ def tied_peaks_stream(ctx):
                 else:
                     arr[arm[0]], arr[arm[1]] = rng.choice([6, 7]), pk
             vals = [int(x) for x in arr.ravel()]
+        if it % 12 == 0:
+            # corpus: a branch with three children that absorbs one of them and is then moved up within the same prune
+            # (found by a reviewer's change that kept cached levels); all orientations, values rescaled
+            base_ = np.array([[6, 3, 5, 5, 1], [6, 3, 3, 5, 4], [6, 3, 3, 6, 3], [1, 2, 5, 3, 6], [6, 2, 6, 2, 2]], dtype=float)
+            if rng.random() < 0.5:
+                base_ = base_.T
+            base_ = base_[::rng.choice([1, -1]), ::rng.choice([1, -1])]
+            arr = np.ascontiguousarray(base_) * rng.choice([1, 2, 3]) + rng.choice([0, 1, 5])
+            shape = (5, 5)
+            vals = [int(x) for x in arr.ravel()]
         history = []
         info = {'stream': 'tied peaks', 'shape': list(shape), 'data': vals}
         try:
@@ -153,11 +163,13 @@ def tied_peaks_stream(ctx):
                 elif pre == 'newick':
                     d.to_newick()
                 history.append(pre)
-                kind = rng.choice(['delta', 'npix', 'user'])
+                kind = rng.choice(['delta', 'npix', 'user']) if shape[0] < 5 else rng.choice(['npix', 'npix', 'delta'])
+                if it % 12 == 0 and k == 0:
+                    kind = 'npix'
                 if kind == 'delta':
                     kw = {'min_delta': rng.randint(1, 2)}
                 elif kind == 'npix':
-                    kw = {'min_npix': rng.randint(2, 3)}
+                    kw = {'min_npix': rng.randint(2, 3) if not (it % 12 == 0 and k == 0) else 2}
                 else:
                     t = rng.randint(2, top)
                     kw = {'is_independent': lambda structure, index=None, value=None, t=t: structure.vmax >= t}
